@@ -106,6 +106,25 @@ def h_relabel(cx, layout, a, b, mode):
     _same_outputs(cx, o1, o2, 'relabel(a=%d,b=%d)' % (a, b))
 
 
+def h_range_form(cx, first, step, n, slack, mode):
+    """'depends only on the data': the same equally spaced chain given as a list, as the canonical range and as a range whose stop is not
+    first + n * step (range(first, last + 1, step), as the union / intersection helpers write it) is analysed identically"""
+    import pyerrors as pe
+    layout = {'e|r1': [first + k * step for k in range(n)]}
+    _setup(cx, mode, layout)
+    smp = lib.mk_samples(cx, 'x', layout)
+    vals = np.array([smp['e|r1'][c] for c in layout['e|r1']], dtype=object if cx.mode == 'sym' else float)
+    last = layout['e|r1'][-1]
+    forms = {'list': list(layout['e|r1']), 'canonical range': range(first, first + n * step, step), 'range with another stop': range(first, last + slack, step)}
+    objs = {}
+    for nm, idl in forms.items():
+        cx.expect(list(idl) == layout['e|r1'], 'same configurations [%s]' % nm)
+        objs[nm] = pe.Obs([vals.copy()], ['e|r1'], idl=[idl])
+        _gm(cx, objs[nm], mode)
+    for nm in ('canonical range', 'range with another stop'):
+        _same_outputs(cx, objs['list'], objs[nm], 'list vs %s' % nm)
+
+
 def h_shift_lemma(cx, n, gap):
     """ast2smt: the index expressions of _expand_deltas and the r_length expression of gamma_method depend on the
     configuration numbers only through differences: invariant under i -> i + b for every integer b, and under
@@ -364,7 +383,7 @@ def h_history_spec(cx, layout, warm):
 
 
 HARNESSES = dict(history_spec=h_history_spec, relabel=h_relabel, shift_lemma=h_shift_lemma, rename=h_rename, affine=h_affine, history=h_history, positive=h_positive,
-                 derive_after=h_derive_after, fft_lemma=c02.h_fft_lemma, fft_exec=c02.h_fft_exec, gamma_fft=c02.h_gamma_level)
+                 derive_after=h_derive_after, fft_lemma=c02.h_fft_lemma, fft_exec=c02.h_fft_exec, gamma_fft=c02.h_gamma_level, range_form=h_range_form)
 
 
 def jobs(tier, seed):
@@ -395,6 +414,8 @@ def jobs(tier, seed):
     for n, gap in ((5, 1), (6, 2), (7, 5)):
         add('shift_lemma', n=n, gap=gap)
     add('fft_lemma')
+    for first, step, n, slack, mode in ((1, 2, 8, 1, 'std'), (1, 2, 8, 1, 'texp'), (3, 3, 6, 2, 'kw'), (2, 1, 7, 1, 's0'), (1, 2, 10, 1, 'texp')):
+        J.append(dict(harness='range_form', params=dict(first=first, step=step, n=n, slack=slack, mode=mode), opts=dict(max_refuted=2, timeout=20000)))
     # 'the same numbers with and without the FFT path': the FFT branch executed on the correlation-theorem model (see C02 fft_exec)
     for idx, wm, gap in (([1, 2, 3, 4, 5, 6, 7, 8], 4, 1), ([1, 2, 3, 4, 5], 8, 1), ([1, 2, 3], 7, 1), ([2, 4, 8, 10, 14], 4, 2), ([3, 6, 9, 12, 15, 18, 21], 9, 3)):
         add('fft_exec', idx=idx, w_max=wm, gap=gap)
